@@ -1242,3 +1242,101 @@ Proof.
   intros Hpre Ha Hs He Hrun. destruct (app_args_unchanged _ _ _ _ _ _ Hpre Ha Hs Hrun) as (p & E & _ & ->).
   apply parse_pos_spec in E; assumption.
 Qed.
+
+(* ------------------------------------------------------------------ keyword values of the worker count *)
+(* what a thread-count text means: the two keywords, else a number *)
+Definition kw_count (init_threads init_cores : N) (s : string) : option N :=
+  if String.eqb s "cores" then Some init_cores
+  else if String.eqb s "all" then Some init_threads else parse_size s.
+
+(* the effective PU / core counts the keywords refer to (handle_arguments: use_process_mask_,
+   handle_process_mask, get_number_of_default_threads / _cores) *)
+Definition eff_ignore env p cfgmap : bool :=
+  let ign_cfg := match assoc "pika.ignore_process_mask" cfgmap with
+                 | Some v => parse_size_or v (entry_size (builtin env "pika.ignore_process_mask") 0)
+                 | None => entry_size (builtin env "pika.ignore_process_mask") 0 end in
+  (0 <? ign_cfg)%N || (match value_of "pika:ignore-process-mask" p with Some _ => true | None => false end).
+
+Definition eff_counts env p cfgmap (m : machine) : option (N * N) :=
+  let mask := resolve env p cfgmap "pika:process-mask" "pika.process_mask" in
+  match (match mask with EmptyString => Some (m_maskcount m, m_maskcores m)
+         | _ => match parse_mask mask with Some v => Some (popcount v, cores_in v (m_coremasks m)) | None => None end end) with
+  | None => None
+  | Some (mc, mcores) => if eff_ignore env p cfgmap then Some (m_pus m, m_cores m) else Some (mc, mcores)
+  end.
+
+Lemma ps_cores : parse_size "cores" = None. Proof. vm_compute. reflexivity. Qed.
+Lemma ps_all : parse_size "all" = None. Proof. vm_compute. reflexivity. Qed.
+
+Lemma threads_keywords_precedence env p cfg m ok f a c :
+  handle env p cfg m ok f a = Started c ->
+  assoc "pika.force_min_os_threads" cfg = None ->
+  exists it ic, eff_counts env p cfg m = Some (it, ic) /\
+    kw_count it ic (resolve env p cfg "pika:threads" "pika.os_threads") = Some (c_threads c).
+Proof.
+  intros H Hmin. unfold handle in H. rewrite Hmin in H.
+  unfold eff_counts, eff_ignore, kw_count. unfold resolve in *.
+  set (ign := ((0 <? match assoc "pika.ignore_process_mask" cfg with
+                     | Some v => parse_size_or v (entry_size (builtin env "pika.ignore_process_mask") 0)
+                     | None => entry_size (builtin env "pika.ignore_process_mask") 0 end)%N
+               || match value_of "pika:ignore-process-mask" p with Some _ => true | None => false end)%bool) in *.
+  clearbody ign.
+  match type of H with match ?x with _ => _ end = _ => destruct x as [[mc mcores]|] end; [|discriminate].
+  set (it := if negb ign then mc else m_pus m) in *.
+  set (ic := if negb ign then mcores else m_cores m) in *.
+  exists it, ic. split; [subst it ic; destruct ign; reflexivity|]. clearbody it ic.
+  repeat match type of H with
+         | (if ?b then _ else _) = _ => destruct b eqn:?; try discriminate
+         | match ?x with _ => _ end = _ => destruct x eqn:?; try discriminate
+         end.
+  inversion H; subst c; clear H; cbn [c_threads]. rewrite N.max_id.
+  match goal with E : (if String.eqb _ "cores" then _ else _) = Some ?d |- _ => rename E into Ed end.
+  match goal with E : match value_of "pika:threads" p with _ => _ end = inl ?t |- _ => rename E into Et end.
+  unfold parse_size_or in Et.
+  destruct (value_of "pika:threads" p) as [v|].
+  - destruct (String.eqb v "cores") eqn:E1; destruct (String.eqb v "all") eqn:E2.
+    + apply String.eqb_eq in E1, E2; congruence.
+    + congruence.
+    + congruence.
+    + destruct (parse_size v) as [t|]; [destruct (t =? 0)%N|]; congruence.
+  - destruct (assoc "pika.os_threads" cfg) as [w|].
+    + destruct (String.eqb w "cores") eqn:E1; destruct (String.eqb w "all") eqn:E2.
+      * apply String.eqb_eq in E1, E2; congruence.
+      * apply String.eqb_eq in E1. rewrite E1, ps_cores in Et. congruence.
+      * apply String.eqb_eq in E2. rewrite E2, ps_all in Et. congruence.
+      * destruct (parse_size w); congruence.
+    + destruct (String.eqb (builtin env "pika.os_threads") "cores") eqn:E1;
+      destruct (String.eqb (builtin env "pika.os_threads") "all") eqn:E2.
+      * apply String.eqb_eq in E1, E2; congruence.
+      * congruence.
+      * congruence.
+      * congruence.
+Qed.
+
+(* the same with the deciding text spelled out source by source (resolve_precedence for the table row
+   pika:threads -> pika.os_threads, whose built-in line is ${PIKA_THREADS:cores}) *)
+Definition threads_text (env : list (string * string)) (p : parsed) (cfg : list (string * string)) : string :=
+  match value_of "pika:threads" p with
+  | Some v => v
+  | None => match assoc "pika.os_threads" cfg with
+            | Some v => v
+            | None => match getenv env "PIKA_THREADS" with Some v => v | None => "cores" end
+            end
+  end.
+
+Lemma threads_text_resolve env p cfg :
+  resolve env p cfg "pika:threads" "pika.os_threads" = threads_text env p cfg.
+Proof.
+  unfold threads_text.
+  apply (resolve_precedence "pika:threads" "pika.os_threads") with (raw := "${PIKA_THREADS:cores}");
+    [vm_compute; tauto| |]; vm_compute; reflexivity.
+Qed.
+
+Lemma threads_keywords_precedence_sources env p cfg m ok f a c :
+  handle env p cfg m ok f a = Started c ->
+  assoc "pika.force_min_os_threads" cfg = None ->
+  exists it ic, eff_counts env p cfg m = Some (it, ic) /\
+    kw_count it ic (threads_text env p cfg) = Some (c_threads c).
+Proof.
+  intros H Hm. rewrite <- threads_text_resolve. exact (threads_keywords_precedence env p cfg m ok f a c H Hm).
+Qed.
